@@ -136,13 +136,21 @@ def rules(ctx):
     g = cfg_of(sb.node)
 
     # ---------------------------------------------------------------- R09.1
+    # the helper may be handed the domain itself instead of the spin flag (product(domain, repeat=N))
+    dom_mode = any(len(c.args) == 1 and is_name(expand_names(sb.node, c.args[0]), spinp)
+                   for c in calls_in(sb.node) if src(c.func) in ('itertools.product', 'product'))
     for kind, (flag, vf) in WRAP.items():
         w = P.func('_solve_bruteforce.solve_%s_bruteforce' % kind)
         cs = calls_in(w.node, '_solve_bruteforce')
         ok = len(cs) == 1 and len(cs[0].args) == 5
         if ok:
             a = cs[0].args
-            ok = is_name(a[0], w.params[0]) and is_const(a[3], flag) and is_name(a[4], vf)
+            if dom_mode:
+                lt_ = literal_tuple(expand_names(w.node, a[3])) or ()
+                okdom = len(lt_) == 2 and set(lt_) == ({1, -1} if flag else {0, 1})
+            else:
+                okdom = is_const(a[3], flag)
+            ok = is_name(a[0], w.params[0]) and okdom and is_name(a[4], vf)
             check_forwarding(ctx, 'R09.1', w, cs[0], sb, 'func')
             rets = [n for n in walk_no_nested(strip_docstring(w.node.body)) if isinstance(n, ast.Return)]
             ok = ok and any(r.value is cs[0] for r in rets)
@@ -181,6 +189,8 @@ def rules(ctx):
             set(literal_tuple(dom.orelse) or ()) == {0, 1} and len(literal_tuple(dom.orelse) or ()) == 2
         if isinstance(dom, ast.IfExp) and src(dom.test) == 'not %s' % spinp:
             okd = set(literal_tuple(dom.orelse) or ()) == {1, -1} and set(literal_tuple(dom.body) or ()) == {0, 1}
+        if dom_mode and is_name(dom, spinp):
+            okd = True          # the wrappers hand the domain in (checked under R09.1)
         ctx.inst('R09.2', sb, dom if dom is not None else pc, okd,
                  "domain (1, -1) under the spin flag, (0, 1) otherwise" if okd else
                  "candidate space `%s` is not the full product of {1,-1} for spin / {0,1} for boolean selected by `%s` over "
